@@ -611,7 +611,7 @@ pub fn run(a: &Args) {
 	let mut rep = Report::new("C19");
 	let mut rng = Rng::new(a.shard_seed() ^ 0xC19);
 	let dir = a.work.clone();
-	let n_logs = if a.thorough() { 40 } else { 6 };
+	let n_logs = if a.thorough() { 40 } else { 12 };
 	let q_per_log = if a.thorough() { 12_000 } else { 2_500 };
 	let w = World::create(
 		&dir,
